@@ -393,23 +393,22 @@ class RegexCompiler:
         need_zero_width_reset = capture_groups and self._needs_advance_check(body)
 
         if greedy:
-            # Try match first, skip as backup
-            # Reset captures first (they should be undefined if we backtrack to skip)
-            self._emit_capture_reset(capture_groups)
-
+            # Try match first, skip as backup. The captures are reset inside the
+            # attempted iteration only: skipping leaves earlier captures of the same
+            # groups (e.g. from the mandatory part of {n,m}) untouched.
             if need_zero_width_reset:
                 # Save position to check if body advanced
                 reg = self._allocate_register()
                 self._emit(Op.SET_POS, reg)
 
             split_idx = self._emit(Op.SPLIT_FIRST, 0)
+            self._emit_capture_reset(capture_groups)
             self._compile_node(body)
 
             if need_zero_width_reset:
-                # Reset captures if position didn't advance
-                min_group = min(capture_groups)
-                max_group = max(capture_groups)
-                self._emit(Op.RESET_IF_NO_ADV, reg, min_group, max_group)
+                # An empty iteration is rejected (RepeatMatcher step 2.b), which
+                # backtracks to the skip alternative with the captures it had
+                self._emit(Op.CHECK_ADVANCE, reg)
 
             self._patch(split_idx, Op.SPLIT_FIRST, self._current_offset())
         else:
@@ -425,10 +424,9 @@ class RegexCompiler:
             self._compile_node(body)
 
             if need_zero_width_reset:
-                # Reset captures if position didn't advance
-                min_group = min(capture_groups)
-                max_group = max(capture_groups)
-                self._emit(Op.RESET_IF_NO_ADV, reg, min_group, max_group)
+                # An empty iteration is rejected (RepeatMatcher step 2.b), which
+                # backtracks to the skip alternative with the captures it had
+                self._emit(Op.CHECK_ADVANCE, reg)
 
             self._patch(split_idx, Op.SPLIT_NEXT, self._current_offset())
 
@@ -479,25 +477,12 @@ class RegexCompiler:
         capture_groups = self._find_capture_groups(body)
 
         if need_advance_check:
-            reg = self._allocate_register()
-            loop_start = self._current_offset()
-
+            # The first iteration is mandatory and may be empty; only the
+            # optional iterations after it are subject to the empty check
+            # (ECMAScript RepeatMatcher: the check applies when min is 0).
             self._emit_capture_reset(capture_groups)
-            self._emit(Op.SET_POS, reg)
             self._compile_node(body)
-            # CHECK_ADVANCE before SPLIT so that if body took a non-advancing path
-            # (like empty alternative), we backtrack to body alternatives first,
-            # not directly to the loop exit
-            self._emit(Op.CHECK_ADVANCE, reg)
-
-            if greedy:
-                split_idx = self._emit(Op.SPLIT_FIRST, 0)
-                self._emit(Op.JUMP, loop_start)
-                self._patch(split_idx, Op.SPLIT_FIRST, self._current_offset())
-            else:
-                split_idx = self._emit(Op.SPLIT_NEXT, 0)
-                self._emit(Op.JUMP, loop_start)
-                self._patch(split_idx, Op.SPLIT_NEXT, self._current_offset())
+            self._compile_star(body, greedy, need_advance_check)
         else:
             loop_start = self._current_offset()
             self._emit_capture_reset(capture_groups)
@@ -519,8 +504,10 @@ class RegexCompiler:
         self, body: Node, min_count: int, greedy: bool, need_advance_check: bool
     ):
         """Compile {n,} quantifier."""
-        # Emit body min_count times
+        # Emit body min_count times (each iteration starts with its captures reset)
+        capture_groups = self._find_capture_groups(body)
         for _ in range(min_count):
+            self._emit_capture_reset(capture_groups)
             self._compile_node(body)
 
         # Then emit * for the rest
@@ -535,8 +522,11 @@ class RegexCompiler:
         need_advance_check: bool,
     ):
         """Compile {n,m} quantifier."""
-        # Emit body min_count times (required)
+        # Emit body min_count times (required; each iteration starts with its
+        # captures reset)
+        capture_groups = self._find_capture_groups(body)
         for _ in range(min_count):
+            self._emit_capture_reset(capture_groups)
             self._compile_node(body)
 
         # Emit body (max_count - min_count) times (optional)
